@@ -93,6 +93,16 @@ Theorem C03_resolves_iff : forall (inh : loc -> option loc) (present : loc -> bo
     (Resolves inh present dflt [] l r <-> r = first_defined inh present dflt F l).
 Proof. exact resolves_iff. Qed.
 
+(** a value whose text is empty (payload [empty_text]: "" or only `$t` references to "") is still
+    defined: its locale resolves to itself, merging it never registers the locale in the
+    DefaultedLocales, and in the default locale it is an ordinary value (not ExplicitDefaultInDefault) *)
+Theorem C03_empty_is_defined :
+  (forall f p, payload_at f p = Some empty_text -> defines f p = true)
+  /\ (forall suppress top dt ns pay d path,
+        merge_value suppress top dt ns (BValue pay d) (Leaf empty_text) path = Ok (BValue pay d, []))
+  /\ (forall dflt ns path, mk_value dflt ns path (Leaf empty_text) = Ok (BValue empty_text (dl_new dflt))).
+Proof. exact empty_is_defined. Qed.
+
 (** non-vacuity: a 2-cycle de <-> fr below the default en; key 1 defined by fr only, key 2 by nobody *)
 Definition ex_files : list (loc * forest) :=
   [(2, FCons 1 (Leaf 10) (FCons 2 (Leaf 11) FNil)); (1, FNil); (3, FCons 1 (Leaf 12) FNil)].
